@@ -258,6 +258,15 @@ def main(rep, tier, seed):
     items, n_grid = gen_cases(rng, tier)
     items = corpus + items
     outl, bad, errors = correspond(binpath, items, "c10")
+    # the same cases in the release and overflow-checked-release profiles: C10's observations (incl. the
+    # length-mismatch panics, which are plain assert!s) must not depend on the build profile
+    pdiffs, perrs = F.profile_diff("c10", items, outl, profiles=("release", "relchk")) if not errors else ([], [])
+    for name, msg in perrs:
+        rep.violation("profile_" + name, {"kind": "harness could not be built/run in another profile", "log": msg}, no_input=True)
+    for idx, prof, line in pdiffs[:3]:
+        rep.violation(f"profile_{prof}_case{idx}", {
+            "kind": f"the crate behaves differently in the {prof} build profile than in the dev profile (the proved model has no profile dependence; e.g. a length check that only exists under debug assertions)",
+            "harness_line": items[idx]["line"], "dev_observations": outl[idx], f"{prof}_observations": line})
     for name, msg in errors:
         rep.violation("correspondence_error_" + name.replace("/", "_"),
                       {"kind": "correspondence could not be evaluated", "where": name, "log": msg}, no_input=True)
